@@ -38,6 +38,10 @@ func realBytes(pi, kind int) []byte {
 		return encoded(pi)
 	case garbage:
 		return []byte("\x00\x01garbage")
+	case idle:
+		a := srcProfile(pi)
+		a.Stacks = nil
+		return drive.Encode(ap.Concretize(a, ap.Opts{}))
 	case invalid:
 		p := ap.Concretize(srcProfile(pi), ap.Opts{})
 		p.Sample[0].Value = append(p.Sample[0].Value, 7) // 2 values vs 1 sample type
@@ -74,7 +78,7 @@ func prepareRealFiles(maxSrc, maxBase int) error {
 	}
 	s := scenario{NSrc: maxSrc, NBase: maxBase}
 	for i := 0; i < maxSrc+maxBase; i++ {
-		for _, k := range []int{ok, garbage, invalid} {
+		for _, k := range []int{ok, garbage, invalid, idle} {
 			s.Fail = make([]int, maxSrc+maxBase)
 			s.Fail[i] = k
 			forms := make([]int, maxSrc+maxBase)
